@@ -32,6 +32,12 @@ CHECKS = {
  "C10": ("model_checking", "exhaustive enumeration of the 4^4 policy matrix x method-list shapes x cipher lists x command on two real endpoints, judged by an independent decision table and a passive wire recorder",
          "E-ENUM", "Every cell of the (client auth, server auth, client enc, server enc) matrix x method-list shapes x {common cipher, none} x {command, auth-only} runs two real endpoints over an in-memory pipe: fail/succeed, whether authentication ran (witnessed on the wire), encryption when required, explicit denial instead of a bare close, equal reports on both sides, same session id and an immediate ping/pong both ways are compared with a decision table written from the property text.",
          "Method alphabet CLAIMTOBE / TOKEN / unimplemented PASSWORD; quick uses 5 of the 10 list shapes.", "DESIGN.md §3 C10"),
+ "C04": ("fault_enumeration", "exhaustive single-fault enumeration over the cleartext handshake transcript through a relay between two real endpoints",
+         "E-FAULT", "For four handshake shapes (no authentication, CLAIMTOBE, TOKEN, resumed session; both sides REQUIRE encryption) every byte offset of every cleartext frame is altered (1 substitute quick, 3 thorough) and every frame is preceded by an empty frame, removed, duplicated, split or merged, one fault per live handshake; if the fault was applied and both handshakes still finish, no application message may be accepted by either side (first protected frame must fail).",
+         "Frame layout recorded in a pre-pass; a duplicate landing after a direction's last cleartext frame is judged as a protected-phase injection (its receiver must reject it).", "DESIGN.md §3 C04"),
+ "C06": ("model_checking", "explicit-state BFS over event histories replayed on the real server resumption path, canonical-state de-duplication, reference map of sessions, scripted requesters and verbatim replays in every state",
+         "E-BFS", "All histories up to depth 4 (quick) / 6 (thorough) over 12 events (establish keyed / authenticated key-less / plaintext session, resume with right id+key with and without reply, legitimate client resumption, three virtual-time advances, invalidate, sweep), de-duplicated by canonical state; in every state a battery of scripted resumption requests ({keyed, key-less, plaintext, unknown id} x {wrong key, no key} x {reply, none} x {same, other address}, every single-character alteration of a live id) and byte-for-byte replays (whole and truncated at each frame) of recorded resumed connections hit the real server. The server may resume only a live keyed session, must answer SID_NOT_FOUND when asked, must never hand application bytes from a key-less requester to its caller nor write readable bytes, and a legitimate resumption restores key, user and authentication status.",
+         "Virtual time = re-storing cache entries with shifted expirations (public API); judgements within 30 s of an expiry are skipped; sequential in one process because the server cache is process-global.", "DESIGN.md §3 C06"),
 }
 PENDING = "check not built yet in this session (planned, DESIGN.md section 3); listed here until its check is registered"
 def main():
